@@ -1,3 +1,5 @@
+//go:build verif_c08
+
 package main
 
 // C08 — formula-precedent stream (added after the seeded change C08-g-1 was MISSED: the
